@@ -227,22 +227,23 @@ def rule_phase2_value(ctx: Ctx) -> None:
     ok = len(init) == 1 and len(upd) == 1 and len(hi) == 1
     if ok:
         node = node_of(ff.cfg, upd[0][0])
-        # the `if` guarding the update: ab is not None ∧ (highest is None ∨ ab > highest), in any spelling/order
-        enclosing = [s_ for s_ in walk_stmts(sp.node.body) if isinstance(s_, ast.If) and any(x is upd[0][0] for x in s_.body)]
-        ok = len(enclosing) == 1
+        # every way of reaching the update within one iteration has decided: ab is not None ∧ (highest is None ∨ ab > highest) — however
+        # the guard is spelled (one compound test, nested ifs, early `continue`s)
+        src0 = stmts_matching(sp, "ab = resp.get('accepted_ballot')")
+        ok = len(src0) == 1
         if ok:
-            t = enclosing[0].test
-            conj = t.values if isinstance(t, ast.BoolOp) and isinstance(t.op, ast.And) else [t]
-            sigs = [frozenset(f.sig for f in atoms(c_, True)) for c_ in conj if not (isinstance(c_, ast.BoolOp) and isinstance(c_.op, ast.Or))]
-            disj = [c_ for c_ in conj if isinstance(c_, ast.BoolOp) and isinstance(c_.op, ast.Or)]
-            has_notnone = frozenset({("isnot", "ab", "None")}) in sigs
-            alt_ok = False
-            if len(disj) == 1:
-                alts = {frozenset(f.sig for f in atoms(a_, True)) for a_ in disj[0].values}
-                alt_ok = alts == {frozenset({("is", "highest_accepted_ballot", "None")}), frozenset({("lt", "highest_accepted_ballot", "ab")})}
-            ok = has_notnone and alt_ok
-        # value and ballot of the running maximum are updated together
-        ok = ok and not always_before(ctx, sp, lambda x: x.ast is hi[0][0], lambda x: x is node) and any(x is hi[0][0] for x in enclosing[0].body)
+            start = node_of(ff.cfg, src0[0][0])
+            paths = [p_ for p_ in enumerate_paths(ff, start, stop=lambda x: x is node or x is start) if p_.end == "stop" and p_.nodes[-1] is node]
+            ok = bool(paths)
+            for p_ in paths:
+                notnone = p_.decided(lambda t_: t_ in ("abisnotNone",))
+                first = p_.decided(lambda t_: t_ == "highest_accepted_ballotisNone")
+                higher = p_.decided(lambda t_: t_ in ("ab>highest_accepted_ballot", "highest_accepted_ballot<ab"))
+                if not (notnone is True and (first is True or higher is True)):
+                    ok = False
+        # value and ballot of the running maximum are updated together (same block, so on exactly the same paths)
+        blocks = [blk for x in ast.walk(sp.node) for fld in ("body", "orelse") for blk in [getattr(x, fld, None)] if isinstance(blk, list) and any(y is upd[0][0] for y in blk)]
+        ok = ok and len(blocks) == 1 and any(y is hi[0][0] for y in blocks[0])
         src_ab = stmts_matching(sp, "ab = resp.get('accepted_ballot')")
         ok = ok and len(src_ab) == 1
     ctx.ob("C12-5", "G1", sp, upd[0][0] if upd else None, ok,
@@ -475,6 +476,35 @@ def rule_schema(ctx: Ctx) -> None:
     ctx.floor("C12-11", 10)
 
 
+def rule_accept_files_under_its_slot(ctx: Ctx) -> None:
+    """C12-14: an acceptor's log index *is* the slot number, so an Accept's command may be appended only when the append lands on the slot
+    the message names: on every path to `self._log.append(...)` in `_handle_accept` either the log was just truncated from `slot`
+    (next index == slot) or the path decided `slot > last_index` and *not* `slot > last_index + 1` (next index == slot)."""
+    prog = ctx.prog
+    n = 0
+    for rel, cname in ((MP, "MultiPaxosNode"), (FP, "FlexiblePaxosNode")):
+        fn = prog.func(rel, f"{cname}._handle_accept")
+        ff = ctx.flow(fn)
+        for c in calls_in(fn.node):
+            if path_of(c.func) != "self._log.append":
+                continue
+            n += 1
+            cn = node_of(ff.cfg, c)
+            bad = []
+            for p_ in enumerate_paths(ff, ff.cfg.entry, stop=lambda x: x is cn):
+                if not (p_.end == "stop" and p_.nodes[-1] is cn):
+                    continue
+                truncated = any(nd.kind == "stmt" and any(path_of(k.func) == "self._log.truncate_from" and k.args and path_of(k.args[0]) == "slot" for k in calls_in(nd.ast)) for nd in p_.nodes[:-1])
+                beyond = p_.decided(lambda t: t in ("slot>self._log.last_index", "self._log.last_index<slot"))
+                gap = p_.decided(lambda t: t in ("slot>self._log.last_index+1", "self._log.last_index+1<slot", "slot-1>self._log.last_index", "self._log.last_index<slot-1"))
+                nxt = p_.decided(lambda t: t in ("slot==self._log.last_index+1", "self._log.last_index+1==slot"))
+                if not (truncated or nxt is True or (beyond is True and gap is False)):
+                    bad.append(p_.describe()[:160])
+            ctx.ob("C12-14", "G1", fn, c, not bad, f"{cname}._handle_accept: a command is appended only where the append lands on the slot the Accept names (an acceptor that missed "
+                   "slot k must not file slot k+1 under index k — it would later apply a different command for slot k than the leader)" + ("" if not bad else " — path: " + bad[0]))
+    need(n >= 4, f"C12-14: expected >= 4 append sites in the two _handle_accept handlers, found {n}")
+
+
 def run(ctx: Ctx) -> None:
     ctx.guarded(rule_ballot_order)
     ctx.guarded(rule_acceptor)
@@ -487,10 +517,14 @@ def run(ctx: Ctx) -> None:
     ctx.guarded(rule_leader_and_lock)
     ctx.guarded(rule_leader_keeps_leading)
     ctx.guarded(rule_slots_only_by_leader)
+    ctx.guarded(rule_accept_files_under_its_slot)
     ctx.guarded(rule_schema)
 
 
 MUTANTS = [
+    ("multipaxos-accept-fills-gap", MP, '        if slot > self._log.last_index + 1:\n            # An earlier slot has not arrived yet: appending would file this\n            # command under the wrong slot. Wait until the gap is filled.\n            return []\n', "", "C12-14"),
+    ("flexible-accept-fills-gap", FP, '        if slot > self._log.last_index + 1:\n            # An earlier slot has not arrived yet: appending would file this\n            # command under the wrong slot. Wait until the gap is filled.\n            return []\n', "", "C12-14"),
+    ("multipaxos-accept-gap-off-by-one", MP, "        if slot > self._log.last_index + 1:\n            # An earlier", "        if slot > self._log.last_index + 2:\n            # An earlier", "C12-14"),
     ("multipaxos-tick-does-not-replicate", MP, "            events = self._send_heartbeat()\n            events.extend(self._replicate_uncommitted())\n            return events", "            return self._send_heartbeat()", "C12-12"),
     ("flexible-acks-counted-per-message", FP, "        self._slot_acks[slot] = len(ackers)", "        self._slot_acks[slot] = self._slot_acks.get(slot, 0) + 1", "C12-12"),
     ("forward-accepted-by-leader-hint", MP, "        if self._is_leader and command is not None:", "        if self._leader == self.name and command is not None:", "C12-13"),
